@@ -30,6 +30,18 @@ CLAIMS["C19"] = dict(
          "filter_size checks of minimize are covered by the minimize unit.",
     technique="deductive: symbolic-presence dicts + path enumeration of the real validators, z3 (LRA/NIA)",
 )
+CLAIMS["C03"] = dict(
+    category="proof",
+    text="The real Problem.__call__ (filter insertion test, removal loop cut at the invariant ALIGN/SUBSET/COVER, FIFO eviction) and the "
+         "real Problem.best_eval are executed on filter lists of symbolic length with arbitrary float contents (NaN, +-inf, ties): the "
+         "filter invariants are preserved by every call, and best_eval returns the entry prescribed by the documented six-tier rule "
+         "(feasible first, least objective, ties by violation then recency; least merit otherwise), written from the statement.",
+    design_ref="5 C03",
+    note="ORDER float model (comparisons exact, merit arithmetic uninterpreted with IEEE monotonicity); callees of Problem.__call__ are "
+         "contract stubs; COVER is claimed for the unbounded filter (filter_size > number of evaluations), the finite-filter clause "
+         "is the selection rule over the retained entries.",
+    technique="deductive: symbolic lists + loop invariant + quantified VCs, z3 (E-matching / MBQI) per obligation",
+)
 NOT_YET = "no check registered yet in this revision (machinery under construction); not claimed"
 NA = {
     "C04": "convergence to the minimiser on reference problems is a whole-run limit property of a floating-point iteration; "
